@@ -3,7 +3,7 @@
    import set in sorted order ([expand_sorted]); the pinned commit iterated a
    HashSet ([expand_order] with an unspecified [order]). *)
 From Coq Require Import Permutation Sorted.
-From PV Require Import Base.Common Model.Expand Proofs.ExpandProofs.
+From PV Require Import Base.Common Model.Expand Proofs.ExpandProofs Model.GenState.
 
 (* For EVERY iteration order of the import set: module i after expansion is
    [signatures of the public declarations of each distinct directly imported
@@ -85,6 +85,32 @@ Theorem C12_import_unresolved : forall file keys includer,
   ~ In file keys /\ forall dir, parent_of includer = Some dir -> ~ In (dir ++ file) keys.
 Proof. exact get_key_offset_complete. Qed.
 
+(* "Compiling one module never changes the result for another except through its
+   imports", for the generator's own state: whatever the tables hold when a new module
+   starts (entries of earlier modules under resolution ids that the new module will use
+   again), `add_module` leaves nothing of it observable - for EVERY table of the struct
+   (the list of tables and of `clear()` calls is regenerated from generator.rs on every
+   run: a table that is added, or a clear that is dropped, breaks this proof). *)
+Theorem C12_add_module_forgets : forall (s1 s2 : tstate) t k,
+  observe (add_module s1) t k = observe (add_module s2) t k.
+Proof. intros s1 s2 t k; unfold observe, add_module; destruct t; reflexivity. Qed.
+
+Theorem C12_add_module_clears_every_table :
+  forallb (fun t => mem_table t cleared_by_add_module) all_tables = true
+  /\ forall t : table, In t all_tables.
+Proof. split; [vm_compute; reflexivity | intro t; destruct t; vm_compute; tauto]. Qed.
+
+(* the tables of one function body (parameters, variables, labelled blocks) are empty again
+   when the body is finished: a function never sees the locals of an earlier one *)
+Theorem C12_function_locals_forgotten : forall (s : tstate) t k,
+  is_function_local t = true -> observe (finish_function s) t k = None.
+Proof. intros s t k H; unfold observe, finish_function; destruct t; try discriminate H; reflexivity. Qed.
+
+Example C12_tables_nontrivial :
+  observe (insert empty_state T_constants 3 7) T_constants 3 = Some 7%N /\
+  observe (add_module (insert empty_state T_constants 3 7)) T_constants 3 = None.
+Proof. split; reflexivity. Qed.
+
 Print Assumptions C12_imported_exactly_public.
 Print Assumptions C12_import_resolution.
 Print Assumptions C12_import_unresolved.
@@ -95,3 +121,6 @@ Print Assumptions C12_set_order_invariant.
 Print Assumptions C12_hash_order_refuted.
 Print Assumptions C12_sorted_canonical.
 Print Assumptions C12_sorted_spec.
+Print Assumptions C12_add_module_forgets.
+Print Assumptions C12_add_module_clears_every_table.
+Print Assumptions C12_function_locals_forgotten.
